@@ -9,7 +9,7 @@ sys.path.insert(0, os.path.join(os.path.dirname(os.path.abspath(__file__)), '..'
 import gen_runtime
 from extract import LostAnchor
 
-G_SCHEMAS = ['closure_plus', 'g_lookahead', 'char_rule']
+G_SCHEMAS = ['closure_plus', 'g_lookahead', 'char_rule', 'optional_multi', 'closure_star']
 
 def run_g(ctx):
     if 'G' in ctx.cache: return ctx.cache['G']
@@ -42,6 +42,21 @@ def run_g(ctx):
         elif index.get('unreachable'):
             entry['why'] = 'functions fell out of reach: %s' % index['unreachable']
         else:
+            # vacuity guard: `ensures false` on the last contracted generated function must fail
+            try:
+                keys = [k for k in index.get('contract_keys', [])]
+                ck = tuple(keys[-1])
+                cpath, cindex = gen_runtime.generate_g(ctx.repo, os.path.join(ctx.scratch, 'G_' + schema + '_canary'), schema, os.path.join(T['gen'], schema + '.rs'), canary=ck)
+                cvr = layer_r.run_verus(cpath)
+                can = layer_r.analyse('runtime', cpath, cindex, cvr)
+                failed = any(f.get('label') == 'CANARY' for f in can['failures'])
+                entry['canary'] = {'function': '::'.join(ck[1:]), 'failed_as_required': bool(failed)}
+                if not failed:
+                    entry['why'] = 'vacuity canary (ensures false on %s) did not fail' % '::'.join(ck[1:])
+                    return entry
+            except Exception as e:
+                entry['why'] = 'vacuity canary could not be run: %r' % e
+                return entry
             entry['status'] = 'proved'
         return entry
     import concurrent.futures
@@ -66,7 +81,7 @@ def g_part(ctx, prop):
             pass
         if not expected: continue
         unit = {'schema': schema, 'status': e['status'], 'why': e['why'], 'verus_cmd': e.get('verus_cmd'), 'wall_s': e.get('wall_s'),
-                'grammar': 'see bounded.schemas[%s]' % schema}
+                'grammar': 'see bounded.schemas[%s]' % schema, 'vacuity_canary': e.get('canary')}
         out['units'].append(unit)
         if e['status'] == 'proved':
             obl = [c for c in mine if c['kind'] != 'requires']
